@@ -9,7 +9,7 @@ Open Scope list_scope.
 (* _parse_documented_type *)
 Definition parse_ref (ctx : list string) (od : option dtype) : outcome ty :=
   match od with
-  | None => Raise TypeErrorC
+  | None => Raise PDocstringC
   | Some d =>
       if contains "typing." (dt_text d) then Raise PDocstringC
       else match eval ctx (dt_expr d) with
@@ -64,7 +64,8 @@ Proof.
 Qed.
 
 Lemma parse_ref_ok : forall ctx od,
-  parse_type {| pc_guard := Some ("typing.", PDocstringC); pc_catch := [(NameErrorC, PDocstringC)] |} ctx od
+  parse_type {| pc_none := Some PDocstringC; pc_guard := Some ("typing.", PDocstringC);
+                pc_catch := [(NameErrorC, PDocstringC)] |} ctx od
   = parse_ref ctx od.
 Proof.
   intros. destruct od as [d|]; [|reflexivity]. unfold parse_type, parse_ref. cbn [pc_guard pc_catch].
